@@ -78,7 +78,7 @@ def main():
         checks = j["caught_by"] if "--all-catchers" in sys.argv else j["caught_by"][:1]
         todo.append((j["id"], checks, ncpu, False))
     for k in range(jobs):
-        snap = f"/tmp/vsnapr/{k}"
+        snap = f"/tmp/vsnapr/{os.getpid()}_{k}"      # (per process: two regressions may run side by side)
         rc, o = sh(f"rm -rf {snap} && mkdir -p {snap} && git -C {VERIF} archive HEAD | tar -x -C {snap} && cd {snap} && ./setup.sh", "/")
         if rc != 0:
             sys.exit("snapshot setup failed: " + o[-300:])
